@@ -25,6 +25,7 @@ use object_store::ObjectStore;
 use parking_lot::RwLock;
 use std::collections::{BTreeSet, HashSet};
 use std::future::Future;
+use std::sync::atomic::{AtomicBool, Ordering};
 use std::sync::Arc;
 use tokio::sync::Mutex;
 
@@ -93,6 +94,9 @@ pub struct QueryEngine {
     registered_paths: Arc<RwLock<HashSet<String>>>,
     /// Paths currently backing the logical "metrics" table
     registered_metrics_paths: Arc<RwLock<BTreeSet<String>>>,
+    /// Set once `metrics` has been bound to stored chunks; until then it is the start-up
+    /// placeholder, whose schema is only a guess at the schema of the stored data
+    metrics_schema_known: Arc<AtomicBool>,
     /// Serialize operations that mutate and query the logical `metrics` table
     metrics_table_query_lock: Arc<Mutex<()>>,
     /// Object-store URL scheme used for chunk URLs.
@@ -149,6 +153,7 @@ impl QueryEngine {
             ctx,
             registered_paths: Arc::new(RwLock::new(HashSet::new())),
             registered_metrics_paths: Arc::new(RwLock::new(BTreeSet::new())),
+            metrics_schema_known: Arc::new(AtomicBool::new(false)),
             metrics_table_query_lock: Arc::new(Mutex::new(())),
             object_store_scheme: storage_config.provider.object_store_scheme().to_string(),
             object_store_container: storage_config.container.clone(),
@@ -273,8 +278,15 @@ impl QueryEngine {
         self.ctx.register_table("metrics", Arc::new(table))?;
 
         *self.registered_metrics_paths.write() = normalized_paths;
+        self.metrics_schema_known.store(true, Ordering::Release);
 
         Ok(())
+    }
+
+    /// True while `metrics` is still the empty placeholder registered at start-up, i.e. no
+    /// statement has been planned against the schema of the stored chunks yet.
+    pub fn metrics_table_is_placeholder(&self) -> bool {
+        !self.metrics_schema_known.load(Ordering::Acquire)
     }
 
     async fn register_empty_metrics_table(&self) -> Result<()> {
